@@ -34,7 +34,8 @@ PROPS = {
     "C01": dict(parts=[Z("C01", w=4), Z("C10", scen="sig"), Z("C11", scen="wait")], quick=24000, thorough=1200000, nontrivial=["unreg_in_cb"], level="exploration"),
     "C02": dict(parts=[Z("C02")], quick=24000, thorough=1200000, nontrivial=["fd_cb", "block"], level="exploration"),
     "C03": dict(parts=[Z("C03")], quick=24000, thorough=1200000, nontrivial=["fd_cb"], level="exploration"),
-    "C04": dict(parts=[Z("C04")], quick=24000, thorough=1200000, nontrivial=["timer_fired", "block"], level="exploration"),
+    "C04": dict(parts=[Z("C04", w=4), Z("C05", scen="timers")], quick=24000, thorough=1200000, nontrivial=["timer_fired", "block"], level="exploration"),
+    "C05": dict(parts=[Z("C05", scen="timers")], quick=2500, thorough=120000, nontrivial=["timer_many"], level="exploration"),
     "C06": dict(parts=[Z("C06")], quick=24000, thorough=1200000, nontrivial=["task_ran"], level="exploration"),
     "C07": dict(parts=[Z("C07", w=4), Z("C13", scen="pool"), Z("C19", scen="popen")], quick=24000, thorough=1200000, nontrivial=["block"], level="exploration"),
     "C08": dict(parts=[Z("C08")], quick=20000, thorough=1000000, nontrivial=["post_cross", "event_cb"], level="exploration"),
@@ -108,7 +109,10 @@ def parse_run_line(line):
     return r
 
 
-def relevant(prop, vid):
+def relevant(prop, vid, variant=""):
+    if prop == "C15" and variant and variant != "base":
+        # every guarantee of the other properties must survive every enumerated fault variant
+        return True
     return vid.startswith(prop + ".") or vid.startswith("ANY.") or vid.startswith("SIM.")
 
 
@@ -155,7 +159,7 @@ class Agg:
         self.switches += int(R.get("switches", 0))
         self.secs += r["secs"]
         if r["viol"]:
-            rel = [v for v in r["viol"] if relevant(self.prop, v[0])]
+            rel = [v for v in r["viol"] if relevant(self.prop, v[0], r["variant"])]
             if rel:
                 self.viol.append((flavour, r))
             else:
@@ -286,7 +290,7 @@ def handle_violations(agg, exes, outdir, prop, tier):
     kf = known_findings()
     os.makedirs(os.path.join(VERIF, "replays"), exist_ok=True)
     for flavour, r in agg.viol:
-        rel = [v for v in r["viol"] if relevant(prop, v[0])]
+        rel = [v for v in r["viol"] if relevant(prop, v[0], r["variant"])]
         vid, desc = rel[0]
         # one report per (id, stable description)
         sig = vid + "|" + re.sub(r"\d+", "N", desc)[:80]
